@@ -64,7 +64,28 @@ impl<'a> G<'a> {
             self.mark();
             return;
         }
-        match self.rng.below(16) {
+        match self.rng.below(17) {
+            16 => {
+                // a copy between the module's two memories, in either direction: a marker is stored
+                // in the source, copied, read back from the destination and folded into the accumulator
+                let (src, dst) = if self.rng.chance(1, 2) { (0u32, 1u32) } else { (1, 0) };
+                self.mark += 1;
+                let (sa, da) = (4 * self.rng.below(50) as i32, 1024 + 4 * self.rng.below(50) as i32);
+                self.out.extend([
+                    I::I32Const(sa),
+                    I::I32Const(7000 + self.mark),
+                    I::I32Store(MemArg { offset: 0, align: 2, memory_index: src }),
+                    I::I32Const(da),
+                    I::I32Const(sa),
+                    I::I32Const(4),
+                    I::MemoryCopy { src_mem: src, dst_mem: dst },
+                    I::GlobalGet(0),
+                    I::I32Const(da),
+                    I::I32Load(MemArg { offset: 0, align: 2, memory_index: dst }),
+                    I::I32Add,
+                    I::GlobalSet(0),
+                ]);
+            }
             14 | 15 => {
                 // value-carrying labels: one or two nested `block (result i32)`, left through a
                 // `br_table` with 0..3 targets (the index is popped first, the value is carried),
@@ -211,6 +232,11 @@ pub fn ctrl_module(rng: &mut Rng) -> Vec<u8> {
         funcs.function(0);
     }
     module.section(&funcs);
+    let mut mems = MemorySection::new();
+    for _ in 0..2 {
+        mems.memory(MemoryType { minimum: 1, maximum: Some(1), memory64: false, shared: false, page_size_log2: None });
+    }
+    module.section(&mems);
     let mut globals = GlobalSection::new();
     globals.global(GlobalType { val_type: ValType::I32, mutable: true, shared: false }, &ConstExpr::i32_const(0));
     module.section(&globals);
